@@ -184,13 +184,17 @@ Section Assoc.
     | [] => [(a, x)]
     | (k, y) :: l' => if N.eqb a k then (k, x) :: l' else (k, y) :: update a x l'
     end.
-  Fixpoint remove (a : N) (l : list (N * V)) : list (N * V) :=
-    match l with [] => [] | (k, y) :: l' => if N.eqb a k then l' else (k, y) :: remove a l' end.
+  Definition remove (a : N) (l : list (N * V)) : list (N * V) :=
+    filter (fun kv => negb (N.eqb a (fst kv))) l.
 End Assoc.
 
-(* st_pre: precondition tasks: k |-> remaining precondition words in walking order
-   (the C array is walked from index n down to 1; [] = all seen full, task handed to a ready queue) *)
-Record state := mkSt { st_mem : list (N * Z); st_febs : list (N * rec); st_pre : list (N * list N) }.
+(* st_pre: precondition tasks: k |-> p_rem = remaining precondition words in walking order
+   (the C array is walked from index n down to 1; [] = all seen full, task handed to a ready queue).
+   History variables (not read by any executable decision): p_all = the words given at the spawn,
+   p_seen = the words a check of this task has seen full since the spawn, p_enq = how often it was enqueued. *)
+Record pinfo := mkP { p_all : list N; p_rem : list N; p_seen : list N; p_enq : nat }.
+Definition no_pinfo := mkP [] [] [] 0.
+Record state := mkSt { st_mem : list (N * Z); st_febs : list (N * rec); st_pre : list (N * pinfo) }.
 Definition init : state := mkSt [] [] [].
 Definition memget (a : N) (s : state) : Z := match lookup a (st_mem s) with Some v => v | None => 0%Z end.
 
@@ -213,9 +217,13 @@ Fixpoint check_walk (febs : list (N * rec)) (k : N) (rem : list N) : list (N * r
   end.
 (* returns true when all preconditions were seen full (C returns 0) *)
 Definition check_preconds (s : state) (k : N) : state * bool :=
-  let rem := match lookup k (st_pre s) with Some l => l | None => [] end in
+  let info := match lookup k (st_pre s) with Some i => i | None => no_pinfo end in
+  let rem := p_rem info in
   let '(febs', rem') := check_walk (st_febs s) k rem in
-  (mkSt (st_mem s) febs' (update k rem' (st_pre s)), is_nil rem').
+  let ok := is_nil rem' in
+  let info' := mkP (p_all info) rem' (p_seen info ++ firstn (length rem - length rem') rem)
+                   (if ok then S (p_enq info) else p_enq info) in
+  (mkSt (st_mem s) febs' (update k info' (st_pre s)), ok).
 
 (* qthread_precond_launch: re-check each batched task, enqueue on result 0 *)
 Fixpoint launch (s : state) (batch : list N) : state * list event :=
@@ -258,7 +266,7 @@ Definition step (s : state) (t : N) (g : gop) : state * list event :=
   | GSpawn k pcs =>
       (* qthread_spawn step 5: t->preconds = [n; a1..an]; enqueue iff the check returns 0 *)
       if is_blocked s k || has_key k (st_pre s) || N.eqb k t then (s, [Skip t]) else
-      let s1 := mkSt (st_mem s) (st_febs s) (update k (rev pcs) (st_pre s)) in
+      let s1 := mkSt (st_mem s) (st_febs s) (update k (mkP (rev pcs) (rev pcs) [] 0) (st_pre s)) in
       let '(s2, ok) := check_preconds s1 k in
       (s2, Ret t OK None :: (if ok then [Enq k] else []))
   end.
